@@ -22,7 +22,7 @@ import warnings
 
 import aiokafka.errors as Errors
 from aiokafka.client import AIOKafkaClient, ConnectionGroup
-from aiokafka.conn import AIOKafkaConnection
+from aiokafka.conn import AIOKafkaConnection, CloseReason
 from aiokafka.protocol import types as T
 from aiokafka.protocol.admin import (
     AlterPartitionReassignmentsRequest,
@@ -323,7 +323,10 @@ async def run_scenario(loop, sc, classes):
         elif kind == "reset":
             tr.peer_reset()
         elif kind == "close":
-            conn.close()
+            if len(ev) > 1 and ev[1]:
+                conn.close(reason=CloseReason[ev[1]])
+            else:
+                conn.close()
         else:
             raise ValueError(kind)
         await settle()
